@@ -14,6 +14,8 @@ OBLIGATIONS = [Ob("wrappers.case%d" % c, "C13/thread_wrappers.c", defs=["CASE=%d
                   tiers=("quick", "thorough"), object_bits=14, timeout=1800, mem_gb=8, fs_size=2048, desc=d)
                for c, d in [(1, "Mutex lock vs pthread codes"), (2, "Mutex trylock vs pthread codes"), (3, "unlock and with block"), (4, "Thread call/join vs pthread codes"), (5, "current(Thread) and thread-local routing")]]
 OBLIGATIONS[4].tiers = ("probe",)   # routing through the real thread-local Table with String keys did not finish (dispatch on embedded headers at symbolic slots); see DESIGN.md
+OBLIGATIONS += [Ob("tls_isolation.%s.%s" % (["main", "worker"][me_], ["mem", "get", "set", "rem"][op_]), "C13/thread_tls.c", defs=["ME=%d" % me_, "OPK=%d" % op_], replace=["Thread.c"], config="ngc", srcs_extra=["env_pthread.c"], unwind=12, unwindset=US, checks=["bounds", "pointer"], tiers=("quick", "thorough"), object_bits=14, timeout=900,
+                   desc="thread-local %s by the %s thread on two thread records with abstract storage tables: only the caller's storage is touched" % (["mem", "get", "set", "rem"][op_], ["main", "worker"][me_])) for me_ in (0, 1) for op_ in range(4)]
 LEVEL_TEXT = ("Other (reduced scope, stated): bounded symbolic execution of the real Thread.c/Mutex wrappers, sequentially, against pthread contract stubs with symbolic return codes. "
               "The schedule quantifier of the property is not explored.")
 LEVEL_NOTE = "Trusted: cbmc; POSIX semantics of pthread_mutex_* / pthread_create / pthread_join / thread-specific data (the stubs only constrain return codes); no interleavings, no memory-model effects."
